@@ -467,25 +467,46 @@ fn main() {
         let mut lab = RootLab::new();
         let m = lab.edges.len();
         let ncand = if a.thorough() { 20_000 } else { 3_000 };
-        let mut cands: Vec<(f32, Vec<f32>)> = vec![];
-        for c in 0..ncand {
-            let policy: Vec<f32> = (0..m).map(|_| match c % 4 {
-                0 => (rng.below(1_000_000) as f32 + 1.0) / 1.0e6,                       // uniform magnitudes
-                1 => -((rng.below(1_000_000) as f32 + 1.0) / 1.0e6).ln() + 1e-3,          // exponential
-                2 => 10f32.powf(-(rng.below(4000) as f32) / 1000.0),                     // four decades
-                _ => (rng.below(50) as f32 + 1.0) * if rng.below(3) == 0 { 40.0 } else { 1.0 }, // accumulated counts
+        let mut cands: Vec<(f32, Vec<f32>, u64)> = vec![];
+        for c in 0..ncand as u64 {
+            let cat = c % 6;
+            let mut policy: Vec<f32> = (0..m).map(|_| match cat {
+                0 | 5 => (rng.below(1_000_000) as f32 + 1.0) / 1.0e6,                  // uniform magnitudes
+                1 => -((rng.below(1_000_000) as f32 + 1.0) / 1.0e6).ln() + 1e-3,      // exponential
+                2 => 10f32.powf(-(rng.below(4000) as f32) / 1000.0),                   // four decades
+                3 => (rng.below(50) as f32 + 1.0) * if rng.below(3) == 0 { 40.0 } else { 1.0 }, // accumulated counts
+                _ => 0.0,
             }).collect();
+            if cat == 4 {
+                // one dominant action (what regret matching converges to), the rest small
+                let d = [0.9f32, 0.97, 0.999, 0.99999][rng.below(4) as usize];
+                let j = rng.below(m as u64) as usize;
+                for (i, w) in policy.iter_mut().enumerate() {
+                    *w = if i == j { d } else { (1.0 - d) / (m as f32 - 1.0) * (0.5 + rng.below(1000) as f32 / 1000.0) };
+                }
+            }
+            if cat == 5 {
+                // some actions with negligible accumulated weight (below f32 epsilon relative to the rest)
+                for _ in 0..1 + rng.below(4) {
+                    let j = rng.below(m as u64) as usize;
+                    policy[j] = [1e-9f32, 1e-12, 1e-20, f32::MIN_POSITIVE][rng.below(4) as usize];
+                }
+            }
             let w = lab.set(&policy);
             let sum: f32 = w.iter().sum();
-            cands.push((sum - 1.0, policy));
+            cands.push((sum - 1.0, policy, cat));
         }
         cands.sort_by(|x, y| x.0.partial_cmp(&y.0).unwrap());
         let nsel = if a.thorough() { 60 } else { 14 };
         let mut chosen: Vec<Vec<f32>> = vec![];
         for i in 0..nsel { chosen.push(cands[i].1.clone()); chosen.push(cands[cands.len() - 1 - i].1.clone()); }
-        let exact: Vec<&(f32, Vec<f32>)> = cands.iter().filter(|c| c.0 == 0.0).collect();
+        let exact: Vec<&(f32, Vec<f32>, u64)> = cands.iter().filter(|c| c.0 == 0.0).collect();
         for i in 0..nsel.min(exact.len()) { chosen.push(exact[i * exact.len() / nsel.min(exact.len())].1.clone()); }
         for i in 0..nsel { chosen.push(cands[(i * 7919 + 13) % cands.len()].1.clone()); }
+        for cat in [4u64, 5] {
+            let of: Vec<&(f32, Vec<f32>, u64)> = cands.iter().filter(|c| c.2 == cat).collect();
+            for i in 0..nsel.min(of.len()) { chosen.push(of[i * of.len() / nsel.min(of.len())].1.clone()); }
+        }
         let offsimplex = cands.iter().filter(|c| c.0.abs() > f32::EPSILON).count();
         run.count(&format!("wide-menu candidates whose f32 weight sum is off 1 by more than one ulp: {offsimplex} of {ncand}"));
         let n: usize = if a.thorough() { 6000 } else { 1500 };
